@@ -16,6 +16,27 @@ if __name__ == '__main__':
                     except ValueError:
                         d['%s|%s|%s' % (c, dist, m)] = None
         out['classes'] = d
+    # the REAL engine: expected batch size of the optimizer returned by each make_private call on one engine object (several datasets in turn)
+    real = []
+    for seq in p.get('real', []):
+        import warnings
+        import torch.nn as nn
+        from torch.utils.data import DataLoader, TensorDataset
+        from opacus import PrivacyEngine
+        warnings.filterwarnings('ignore')
+        eng = PrivacyEngine(accountant='rdp')
+        got = []
+        for (n, bs, poisson, mode) in seq:
+            model = nn.Linear(3, 2)
+            opt = torch.optim.SGD(model.parameters(), lr=0.1)
+            dl = DataLoader(TensorDataset(torch.zeros(n, 3), torch.zeros(n, dtype=torch.long)), batch_size=bs)
+            kw = dict(module=model, optimizer=opt, data_loader=dl, noise_multiplier=1.0, max_grad_norm=1.0, poisson_sampling=poisson, grad_sample_mode=mode)
+            if mode == 'ghost':
+                kw['criterion'] = nn.CrossEntropyLoss()
+            r_ = eng.make_private(**kw)
+            got.append([float(r_[1].expected_batch_size), len(dl)])
+        real.append(got)
+    out['real'] = real
     out['steps'] = [int(1 / (1 / l)) for l in p.get('lens', [])]
     out['calib'] = [int(e / (1 / l)) for e, l in p.get('calib', [])]
     emit(out)
